@@ -86,6 +86,10 @@ def run(F, R):
     # that are still outstanding - one descriptor then belongs to two chains); shared with C03.E5
     from .C03 import counters_rule
     counters_rule(F, R, 'F10')
+    # F14: indirect tables are used only when enabled for the queue: every driver constructs its queues with indirect = the negotiated
+    # INDIRECT_DESC bit (C08.H3)
+    from .C08 import queue_modes_rule
+    queue_modes_rule(F, R, M, 'F14', ['device::'])
     # F11: the device finds the ring slot of an entry with the queue size it was told: queue_set receives SIZE (and the
     # queue's own index and areas) - shared with C06.L3
     from .C06 import registration_rule
